@@ -7,6 +7,7 @@ from typing import Optional, Union
 import typer
 
 from openapi_python_client import MetaType
+from openapi_python_client import _verif_trace
 from openapi_python_client.config import Config, ConfigFile
 from openapi_python_client.parser.errors import ErrorLevel, GeneratorError, ParseError
 
@@ -87,6 +88,7 @@ def _print_parser_error(err: GeneratorError, color: str) -> None:
 def handle_errors(errors: Sequence[GeneratorError], fail_on_warning: bool = False) -> None:
     """Turn custom errors into formatted error messages"""
     if len(errors) == 0:
+        _verif_trace.emit("exit", code=0, errors=0, warnings=0, fail_on_warning=fail_on_warning)
         return
     error_level = ErrorLevel.WARNING
     message = "Warning(s) encountered while generating. Client was generated, but some pieces may be missing"
@@ -121,6 +123,13 @@ def handle_errors(errors: Sequence[GeneratorError], fail_on_warning: bool = Fals
         err=True,
     )
 
+    _verif_trace.emit(
+        "exit",
+        code=1 if error_level == ErrorLevel.ERROR or fail_on_warning else 0,
+        errors=sum(1 for e in errors if e.level == ErrorLevel.ERROR),
+        warnings=sum(1 for e in errors if e.level != ErrorLevel.ERROR),
+        fail_on_warning=fail_on_warning,
+    )
     if error_level == ErrorLevel.ERROR or fail_on_warning:
         raise typer.Exit(code=1)
 
